@@ -4,9 +4,11 @@ import (
 	"fmt"
 	"reflect"
 	"strconv"
+	"unsafe"
 
 	"github.com/goccy/go-json/internal/errors"
 	"github.com/goccy/go-json/internal/runtime"
+	"github.com/goccy/go-json/internal/verifhook"
 )
 
 type PathString string
@@ -320,6 +322,7 @@ type Path struct {
 }
 
 func (p *Path) Field(sel string) (PathNode, bool, error) {
+	verifhook.Point(7, unsafe.Pointer(&p.node), false)
 	if p.node == nil {
 		return nil, false, nil
 	}
